@@ -161,8 +161,8 @@ impl Prop for C04 {
 	}
 	fn budget(&self, tier: Tier) -> (u64, u64) {
 		match tier {
-			Tier::Quick => (600_000, 60),
-			Tier::Thorough => (20_000_000, 900),
+			Tier::Quick => (1_500_000, 90),
+			Tier::Thorough => (30_000_000, 1200),
 		}
 	}
 
